@@ -133,8 +133,7 @@ def grid(cid, kind, bias, mults, hashes, keys, layouts):
                                                    'mult': mult, 'hashname': hashname,
                                                    'keyidx': keyidx, 'layout': layout}},
                         key={'check': CHECK_OF[kind], 'curve': G.NAMES[cid], 'kind': kind,
-                             'bits': bias, 'count_x_margin': mult, 'hash': hashname,
-                             'key': keyidx, 'layout': layout})
+                             'bits': bias, 'count_x_margin': mult})
   r.sample({'curve': G.NAMES[cid], 'kind': kind, 'bias_bits': bias, 'margin':
             margin(cid, kind, bias), 'multipliers': mults, 'hashes': hashes, 'keys': keys,
             'layouts': layouts})
@@ -290,14 +289,21 @@ def plan(tier, seed):
     for kind in CHECK_OF:
       for bias in (16, 32, 64, 128):
         heavy = bias == 16
+        big = G.curve(cid).n.bit_length() > 400
         layouts = ['single']
-        if thorough or (cid == 2 and bias in (32, 64)):
+        if thorough and not heavy:
+          layouts += ['healthy-interleaved', 'two-biased', 'two-curves', 'duplicates',
+                      'healthy-first']
+        elif thorough:
+          layouts += ['healthy-interleaved'] if not big else []
+        elif cid == 2 and bias in (32, 64):
           layouts += ['healthy-interleaved', 'two-biased', 'two-curves', 'duplicates',
                       'healthy-first']
         T.append(Task('bias-grid', 'grid',
                       {'cid': cid, 'kind': kind, 'bias': bias, 'mults': [1, 1.5, 2],
                        'hashes': ['sha256', 'sha1', 'sha512'] if (thorough and not heavy) else
-                       ['sha256'], 'keys': [0, 1] if thorough else [0], 'layouts': layouts},
+                       ['sha256'], 'keys': [0, 1] if (thorough and not (heavy and big)) else [0],
+                       'layouts': layouts},
                       bound='%s x 4 bias kinds x bits {16,32,64,128} x count {1,1.5,2} x margin x '
                       'hashes x keys x layouts (single; on secp256r1 / thorough also interleaved '
                       'healthy issuer, two biased issuers, two curves, duplicates, healthy-first)' %
